@@ -280,6 +280,18 @@ def run_case(case, ctx):
     dea3, nd = _lib()
     kind = case['kind']
     ctx.count('cases:' + kind)
+    if case.get('seed', 0) % 40 == 7 or ctx.counters.get('cases:' + kind, 0) == 1:
+        # history: the routine has been used on terms of other precisions before (float32, float16, complex64, integers): a
+        # stateless function owes the present (binary64) terms nothing less for that
+        ctx.count('earlier_calls_in_other_precisions')
+        try:
+            with np.errstate(all='ignore'):
+                dea3(np.float32(1.0), np.float32(1.5), np.float32(1.75))
+                dea3(np.array([1.0, 2.0], dtype=np.float16), np.array([1.5, 2.5], dtype=np.float16), np.array([1.75, 2.75], dtype=np.float16))
+                dea3(np.complex64(1 + 1j), np.complex64(1.5 + 0.5j), np.complex64(1.75 + 0.25j))
+                dea3(1, 2, 4)
+        except Exception:
+            pass
     if kind == 'geom':
         L, a, q, k0 = case['L'], case['a'], case['q'], case['k0']
         FL, Fa, Fq = F(L), F(a), F(q)
